@@ -462,8 +462,15 @@ def replay(path):
             print("tokens out: ...", y)
             same = a[0] == b[0]
         else:
-            print(so.decode("latin-1")[:2000])
-            same = False
+            # the languages the independent lexer does not know: uncrustify's own tokenizer re-reads the output (hooked build)
+            print(so.decode("latin-1")[:1200])
+            evs, info, j = _obs_job((build("hooks"), d, True, 0, ("replay", src, None, r.get("cfg_text", ""), lang)))
+            o = evs[-1]
+            same = o.get("e") == "Out" and o.get("tin") == o.get("tout")
+            if not same and o.get("e") == "Out":
+                k, x, y = pe.first_diff(o["tin"], o["tout"])
+                print("tokens in : ...", x)
+                print("tokens out: ...", y)
         print("property holds on this case" if same else "VIOLATION reproduced: token streams differ")
         return 0 if same else 1
     finally:
